@@ -20,9 +20,32 @@ CO_OBJ  *G_DROOT; uint16_t G_DNUM;
 uint32_t G_INIT_CNT, G_INIT_ALL;
 /* allocate the symbolic-size dictionary of the world and link it (pointers by assignment) */
 #include <stdlib.h>
+#ifndef VW_DICT_SMALL
+#define VW_DICT_SMALL 5
+#endif
+CO_OBJ V_DICTA[VW_DICT_SMALL + 1];
 static void vw_dict_alloc(void)
 {
+#ifdef VW_DICT_SYMSIZE
+    /* the dictionary layer itself: exactly Num+1 entries of symbolic Num <= 65535 (reads beyond the end marker are caught) */
     G_DROOT = malloc(((size_t)G_DNUM + 1) * sizeof(CO_OBJ));
+#else
+    /* callers of the dictionary: VW_DICT_SMALL symbolic entries (keys, flags, types, data all symbolic).
+     * The callers reach the dictionary only through CODictFind (whose exactness for EVERY size is group
+     * dict_find), so entries that a step never looks up are unobservable; VW_DICT_SMALL exceeds the
+     * number of entries one step can name.  The real CODictFind runs inline over this dictionary: a
+     * replaced CODictFind would return an unassigned pointer, which symex dereferences by a case split
+     * over every object of the program (measured: 1.2M clauses per call).  Listed under assumptions. */
+    __CPROVER_assume(G_DNUM <= VW_DICT_SMALL);
+    G_DROOT = V_DICTA;
+    /* well-formed: configured keys have non-zero index/sub and are strictly sorted (pairwise, constant bound) */
+    for (int i = 0; i < VW_DICT_SMALL; i++) {
+        if (i < G_DNUM) {
+            __CPROVER_assume(DEV(V_DICTA[i].Key) != 0);
+            if (i > 0) { __CPROVER_assume(DEV(V_DICTA[i - 1].Key) < DEV(V_DICTA[i].Key)); }
+        }
+    }
+#endif
     __CPROVER_assume(G_DROOT != NULL);
     V_NODE.Dict.Root = G_DROOT; V_NODE.Dict.Num = G_DNUM; V_NODE.Dict.Node = &V_NODE;
     __CPROVER_assume(V_NODE.Dict.Max >= G_DNUM);
@@ -36,3 +59,12 @@ CO_TMR_FUNC G_TMR_LAST_FUNC; void *G_TMR_LAST_PARA; int16_t G_TMR_LAST_DEL; int1
 uint32_t G_PDOINIT_N;
 uint32_t G_DV_KEY[4]; _Bool G_DV_OK[4]; uint32_t G_DV_VAL[4];
 uint32_t G_RESET_N_NODE, G_RESET_N_COM; uint8_t *V_SDOBUF_P;
+uint32_t G_OBJSIZE; CO_ERR G_RD_ERR, G_WR_ERR; uint8_t G_N;
+
+/* specification lookup: index of the configured entry with exactly that index/sub, or -1 */
+static int spec_find(uint32_t key)
+{
+    int r = -1;
+    for (int i = 0; i < 8; i++) { if (i < G_DNUM && DEV(G_DROOT[i].Key) == DEV(key)) { r = i; } }
+    return r;
+}
